@@ -268,6 +268,8 @@ def run(ctx):
         run_dc_case(ctx, dict(case), seeds[0], pending)
     flush(ctx, pending, "dc")
     O.run_other(ctx)
+    from . import c05_modes as M
+    M.run_modes(ctx)
     ctx.extra["observations"] = {k.split(":", 1)[1]: v for k, v in ctx.dist.items() if k.startswith("observation:")}
     ctx.extra["not_exercised"] = {k.split(":", 1)[1]: v for k, v in ctx.dist.items() if k.startswith("not-exercised:")}
 
@@ -283,6 +285,9 @@ def replay(ctx, rep):
         run_site_case(ctx, dict(inp["case"]), inp["seed"], [])
     elif kind == "dc":
         run_dc_case(ctx, dict(inp["case"]), inp["seed"], [])
+    elif kind == "mode":
+        from . import c05_modes as M
+        M.mode_case(ctx, dict(inp["case"]), [])
     else:
         from . import c05_other as O
         O.replay_other(ctx, inp)
